@@ -1,4 +1,4 @@
-"""Rule helpers shared across properties: user-reaching classification, pruning rules."""
+"""Rule helpers shared across properties: user-reaching classification (the pruning rules are evaluated: prunerules.py)."""
 from __future__ import annotations
 
 import ast
@@ -36,276 +36,3 @@ def make_user_reaching(m):
     ur.reaches = reaches
     ur.leaf = leaf
     return ur
-
-
-def graph_mutation_calls(f):
-    return [c for c in f.own_calls() if isinstance(c.func, ast.Attribute) and c.func.attr in GRAPH_MUTATORS
-            and ("graph" in norm(c.func.value).lower() or norm(c.func.value) in ("g", "G"))]
-
-
-def _is_universe(e):
-    """Expression enumerating every node of a graph: G, G.nodes, G.nodes(), list/set/tuple(...) of those."""
-    if isinstance(e, ast.Call) and isinstance(e.func, ast.Name) and e.func.id in ("set", "list", "tuple", "frozenset", "sorted") and len(e.args) == 1:
-        return _is_universe(e.args[0])
-    t = norm(e)
-    return t.endswith(".nodes()") or t.endswith(".nodes") or t in ("graph", "plan.graph", "g", "G") or t.endswith(".graph")
-
-
-def removed_set_facts(m, f, e, depth=0, seen=()):
-    """Abstract description of a collection of nodes about to be removed:
-    {'complement_of': <name of the kept set> | None  - the collection is EXACTLY universe minus that set,
-     'pred_free': bool                               - every element has no predecessor}"""
-    none = {"complement_of": None, "pred_free": False}
-    if depth > 6:
-        return none
-    if isinstance(e, ast.Call) and isinstance(e.func, ast.Name) and e.func.id in ("set", "list", "tuple", "frozenset", "sorted") and len(e.args) == 1:
-        return removed_set_facts(m, f, e.args[0], depth + 1, seen)
-    if isinstance(e, ast.Call) and isinstance(e.func, ast.Name) and e.func.id == "filter" and len(e.args) == 2:
-        base = removed_set_facts(m, f, e.args[1], depth + 1, seen)
-        pf = base["pred_free"]
-        for g in m.callee_funcs(f, ast.Call(func=e.args[0], args=[], keywords=[])) if False else ():
-            pass
-        return {"complement_of": None, "pred_free": pf}
-    if isinstance(e, ast.BinOp) and isinstance(e.op, ast.Sub) and _is_universe(e.left) and isinstance(e.right, ast.Name):
-        return {"complement_of": e.right.id, "pred_free": False}
-    if isinstance(e, ast.Call) and isinstance(e.func, ast.Attribute) and e.func.attr == "difference" and len(e.args) == 1 \
-            and _is_universe(e.func.value) and isinstance(e.args[0], ast.Name):
-        return {"complement_of": e.args[0].id, "pred_free": False}
-    if isinstance(e, (ast.ListComp, ast.SetComp, ast.GeneratorExp)) and len(e.generators) == 1 and not e.generators[0].is_async:
-        gen = e.generators[0]
-        if not (isinstance(gen.target, ast.Name) and is_name(e.elt, gen.target.id)):
-            return none
-        v = gen.target.id
-        base_univ = _is_universe(gen.iter)
-        base = none if base_univ else removed_set_facts(m, f, gen.iter, depth + 1, seen)
-        pf = base["pred_free"]
-        comp = None
-        for cond in gen.ifs:
-            t = cond
-            if isinstance(t, ast.Compare) and len(t.ops) == 1 and isinstance(t.ops[0], ast.NotIn) and is_name(t.left, v) \
-                    and isinstance(t.comparators[0], ast.Name):
-                comp = t.comparators[0].id
-            for x in ast.walk(cond):
-                if isinstance(x, ast.Call) and x in f.own_calls() and any(is_pred_free_test(m, g) for g in m.callee_funcs(f, x)) \
-                        and any(is_name(a, v) for a in x.args):
-                    # the test must hold for the element to be selected (conjunct, not under `not`/`or`)
-                    conj = cond.values if isinstance(cond, ast.BoolOp) and isinstance(cond.op, ast.And) else [cond]
-                    if any(c is x for c in conj):
-                        pf = True
-        exact = comp if (base_univ and len(gen.ifs) == 1 and comp is not None) else None
-        return {"complement_of": exact, "pred_free": pf}
-    if isinstance(e, ast.Name) and e.id not in seen:
-        bs = f.bindings.get(e.id, [])
-        if not bs or any(b[0] != "assign" or b[2] for b in bs):
-            return none
-        facts = []
-        for _k, expr, _p in bs:
-            # a re-binding that filters the previous value of the same name keeps 'every element is pred-free'
-            sub = removed_set_facts(m, f, expr, depth + 1, seen + (e.id,))
-            selfref = any(isinstance(x, ast.Name) and x.id == e.id for x in ast.walk(expr))
-            facts.append((sub, selfref))
-        roots = [fa for fa, selfref in facts if not selfref]
-        if not roots:
-            return none
-        pf = all(fa["pred_free"] for fa in roots) and all(_is_subset_of_self(expr, e.id) for (_k, expr, _p), (fa, selfref) in zip(bs, facts) if selfref)
-        comp = roots[0]["complement_of"] if len(bs) == 1 else None
-        return {"complement_of": comp, "pred_free": pf}
-    return none
-
-
-def _is_subset_of_self(expr, name):
-    """`expr` selects elements of the collection `name` (comprehension over it / filter(...) on it)."""
-    e = expr
-    while isinstance(e, ast.Call) and isinstance(e.func, ast.Name) and e.func.id in ("set", "list", "tuple", "sorted") and len(e.args) == 1:
-        e = e.args[0]
-    if isinstance(e, ast.Call) and isinstance(e.func, ast.Name) and e.func.id == "filter" and len(e.args) == 2:
-        return is_name(e.args[1], name)
-    if isinstance(e, (ast.ListComp, ast.SetComp, ast.GeneratorExp)) and len(e.generators) == 1:
-        gen = e.generators[0]
-        return is_name(gen.iter, name) and isinstance(gen.target, ast.Name) and is_name(e.elt, gen.target.id)
-    return False
-
-
-def _closure_at(m, f, kept, stmt):
-    """Every definition of `kept` reaching `stmt` is the result of the ancestor-closure function."""
-    from ..cfg import reaching_defs
-    g = CFG(f)
-    IN = reaching_defs(g, kept)
-    nodes = g.of(stmt)
-    if not nodes:
-        return False
-    for n in nodes:
-        defs = IN[n]
-        if not defs:
-            return False
-        for d in defs:
-            if d is g.entry:
-                return False
-            a = d.ast
-            v = a.value if isinstance(a, (ast.Assign, ast.AnnAssign)) else None
-            while isinstance(v, ast.Call) and isinstance(v.func, ast.Name) and v.func.id in ("set", "frozenset") and len(v.args) == 1:
-                v = v.args[0]
-            if not (isinstance(v, ast.Call) and v in f.own_calls() and any(h.name == "all_ancestors" for h in m.callee_funcs(f, v))):
-                return False
-    return True
-
-
-def rule_pruning_preserves_paths(ctx, rid):
-    """Every node-removal site of the plan transformations is (a) removal of exactly the complement of an ancestor
-    closure, (b) removal of predecessor-free nodes only, or (c) removal of one node whose *current* predecessors and
-    successors were bridged by a full product of edges immediately before."""
-    m = ctx.model
-    sites = []
-    for f in m.funcs.values():
-        if not f.module.name.startswith(("uberjob._transformations", "uberjob._execution", "uberjob._run", "uberjob._util", "uberjob._plan")):
-            continue
-        for c in f.own_calls():
-            if isinstance(c.func, ast.Attribute) and c.func.attr in ("remove_node", "remove_nodes_from"):
-                sites.append((f, c))
-    ctx.floor(rid, "node-removal sites in the plan transformations", len(sites), 3)
-    for f, c in sites:
-        mod = f.module
-        st = stmt_of(mod, c)
-        a0 = c.args[0] if c.args else None
-        verdict = None
-        coll = None
-        if c.func.attr == "remove_nodes_from":
-            coll = a0
-        else:
-            # `for x in L: G.remove_node(x)` with nothing else in the loop is the same bulk removal
-            for p in ast.walk(f.node):
-                if isinstance(p, ast.For) and inside(mod, c, p) and norm(p.target) == norm(a0) and len(p.body) == 1 and p.body[0] is st:
-                    coll = p.iter
-        if coll is not None:
-            facts = removed_set_facts(m, f, coll)
-            if facts["complement_of"] is not None:
-                # where the collection is computed (the statement binding it, or the removal itself)
-                at = st
-                if isinstance(coll, ast.Name):
-                    bs = [b for b in f.bindings.get(coll.id, []) if b[0] == "assign"]
-                    if len(bs) == 1:
-                        at = stmt_of(mod, bs[0][1])
-                ok = _closure_at(m, f, facts["complement_of"], at)
-                verdict = (ok, "removes exactly the complement of the ancestor closure of the required nodes" if ok else
-                           "the kept set is not the ancestor closure at the point of subtraction")
-            elif facts["pred_free"]:
-                verdict = (True, "removes only nodes without predecessors (cannot lie on a path between kept nodes)")
-            else:
-                verdict = (False, "several nodes are removed at once although they may have predecessors and successors: bridges computed beforehand "
-                                  "cannot account for removed nodes that are adjacent to each other, and nodes removed without bridging drop the "
-                                  "dependency (and staleness) paths routed through them")
-        if verdict is None and c.func.attr == "remove_node":
-            verdict = classify_bridged_removal(ctx, m, f, c, a0)
-        if verdict is None:
-            raise AnalysisError(f"{f.qualname}: node removal `{norm(st)}` is not a recognised pruning idiom")
-        ctx.ob(rid, f"{f.short}/removal", verdict[0], loc(f, c), verdict[1], norm(st), verdict[2] if len(verdict) > 2 else "")
-
-
-def is_pred_free_test(m, g):
-    rets = [n for n in g.own_nodes() if isinstance(n, ast.Return) and n.value is not None]
-    return len(rets) == 1 and norm(rets[0].value).replace(" ", "") in (
-        f"not{g.pos_params[0]}.pred[{g.pos_params[1]}]", f"{g.pos_params[0]}.in_degree({g.pos_params[1]})==0") if len(g.pos_params) >= 2 else False
-
-
-def reads_neighbours(m, f, stmt, x, depth=0):
-    """Which neighbour sets of node expression `x` statement `stmt` reads: subset of {'pred','succ'}."""
-    out = set()
-    for c in ast.walk(stmt):
-        if isinstance(c, ast.Call) and isinstance(c.func, ast.Attribute) and c.args and norm(c.args[0]) == x:
-            if c.func.attr == "predecessors":
-                out.add("pred")
-            if c.func.attr in ("successors", "neighbors"):
-                out.add("succ")
-        if isinstance(c, ast.Call) and depth < 2 and any(norm(a) == x for a in c.args):
-            for g in m.callee_funcs(f, c) if c in f.own_calls() else ():
-                idx = [i for i, a in enumerate(c.args) if norm(a) == x][0]
-                ps = g.pos_params[1:] if g.cls is not None else g.pos_params
-                if idx < len(ps):
-                    for s in g.own_stmts():
-                        if isinstance(s, (ast.Assign, ast.Expr, ast.Return, ast.For)):
-                            out |= reads_neighbours(m, g, s, ps[idx], depth + 1)
-    return out
-
-
-def classify_bridged_removal(ctx, m, f, c, a0):
-    mod = f.module
-    x = norm(a0)
-    g = CFG(f)
-    st = stmt_of(mod, c)
-    rm_nodes = set(g.of(st))
-    read_stmts = []
-    for s in f.own_stmts():
-        if isinstance(s, (ast.Assign, ast.AnnAssign)) and s is not st:
-            kinds = reads_neighbours(m, f, s, x)
-            if kinds:
-                read_stmts.append((s, kinds))
-    kinds_all = set()
-    for _s, k in read_stmts:
-        kinds_all |= k
-    if kinds_all != {"pred", "succ"}:
-        return (False, "a node that may have predecessors and successors is removed without reading both its current "
-                       "neighbour sets in the same step: dependencies routed through it are dropped")
-    # bridging loop: for (p, s) in product(P, S): add_edge(p, s, ...)
-    bridges = []
-    nested_full = set()
-    for n in f.own_nodes():
-        if isinstance(n, ast.For):
-            adds = [k for k in ast.walk(n) if isinstance(k, ast.Call) and isinstance(k.func, ast.Attribute) and k.func.attr == "add_edge"]
-            if adds and isinstance(n.target, ast.Tuple) and len(n.target.elts) == 2:
-                tg = [norm(e) for e in n.target.elts]
-                if all(len(k.args) >= 2 and [norm(k.args[0]), norm(k.args[1])] == tg for k in adds):
-                    bridges.append((n, adds))
-            # the same product written as two nested loops: for p in P: for s in S: add_edge(p, s, ...)
-            elif adds and isinstance(n.target, ast.Name) and len(n.body) == 1 and isinstance(n.body[0], ast.For) \
-                    and isinstance(n.body[0].target, ast.Name) and not n.orelse and not n.body[0].orelse \
-                    and not any(isinstance(x, (ast.Break, ast.Continue, ast.If, ast.Return)) for x in ast.walk(n)):
-                tg = [n.target.id, n.body[0].target.id]
-                if all(len(k.args) >= 2 and [norm(k.args[0]), norm(k.args[1])] == tg for k in adds) \
-                        and isinstance(n.iter, ast.Name) and isinstance(n.body[0].iter, ast.Name):
-                    bridges.append((n, adds))
-                    nested_full.add(n)
-    if not bridges:
-        return (False, "no loop adds predecessor->successor edges before the node is removed")
-    bridge_add_stmts = {stmt_of(mod, k) for _n, adds in bridges for k in adds}
-    full = False
-    for n, _adds in bridges:
-        it = n.iter
-        if n in nested_full:
-            full = True
-        elif isinstance(it, ast.Call) and ext_names(m, f, it) & {"itertools.product"} and len(it.args) == 2:
-            full = True
-        elif isinstance(it, ast.Name):
-            full = True  # pairs computed by a helper: checked through reads_neighbours + staleness below
-    if not full:
-        return (False, "bridging loop does not range over the full product predecessors x successors")
-    # the bridge dominates the removal
-    for n, _ in bridges:
-        if not all(g.dominates(set(g.of(n)), r_) for r_ in rm_nodes):
-            return (False, "the node can be removed on a path that skips the bridging loop")
-    # no other graph mutation between reading the neighbours and the removal
-    other_mut = set()
-    for k in graph_mutation_calls(f):
-        ks = stmt_of(mod, k)
-        if ks in bridge_add_stmts:
-            continue
-        other_mut |= set(g.of(ks))
-    other_mut -= rm_nodes
-    for s, _k in read_stmts:
-        own = set(g.of(s))
-        for sn in own:
-            fresh = g.reach([sn], avoid=own)  # reachable without re-reading the neighbours
-            stale_via = None
-            for om in sorted(other_mut & fresh, key=lambda n: n.id):
-                if rm_nodes & g.reach([om], avoid=own):
-                    stale_via = om
-                    break
-            if stale_via is None:
-                for rn in rm_nodes & fresh:
-                    if rn in g.reach([rn], avoid=own):
-                        stale_via = rn
-                        break
-            if stale_via is not None:
-                return (False, "the neighbours are read from a graph state that is changed again before the removal "
-                               "(batching): edges added or nodes removed in between are missed and dependency paths are lost",
-                        g.fmt_path([sn, stale_via] + (g.path(stale_via, rm_nodes, avoid=own) or [])[-1:]))
-    return (True, "current predecessors x successors are bridged immediately before the removal")
